@@ -16,6 +16,7 @@
 package main
 
 import (
+	"errors"
 	"bufio"
 	"bytes"
 	"context"
@@ -117,6 +118,12 @@ func (p *probes) ServeHTTP(w http.ResponseWriter, r *http.Request) {
 	rec.n = n
 	if err != nil {
 		rec.err = err.Error()
+	}
+	// every other request: the handler closes the body itself when it has read it, as the OTLP receiver's handler does
+	// (the middleware closes what it opened as well; requests overlap -- seeded change C16-6 pooled the zstd decoders and
+	// returned a decoder to the pool once per Close)
+	if len(id) > 0 && (id[len(id)-1]-'0')%2 == 1 {
+		_ = r.Body.Close()
 	}
 	copy(rec.sum[:], h.Sum(nil))
 	close(rec.done)
@@ -402,6 +409,7 @@ func (e *env) runOne(p planLine, seed int64) (outLine, error) {
 	var code int
 	var netErr string
 	attempts := 0
+	hung := 0
 	for attempts < 3 {
 		attempts++
 		pid := fmt.Sprintf("p%d-%d", p.ID, attempts)
@@ -415,7 +423,12 @@ func (e *env) runOne(p planLine, seed int64) (outLine, error) {
 			select {
 			case <-rec.done:
 			case <-time.After(30 * time.Second):
-				return outLine{}, fmt.Errorf("probe handler of %s did not finish", pid)
+				// the handler was entered and never came back from reading the body (blocked inside a decoder, or it
+				// panicked there and net/http swallowed the panic): what it "read" is not the body.  Tried again with a
+				// fresh request; if every attempt ends like this the observation says so (decided by the monitor).
+				hung++
+				rec = &probeRec{started: true, err: fmt.Sprintf("handler of %s did not finish reading the body within 30 s", pid)}
+				err = errors.New(rec.err)
 			}
 			e.probe.drop(pid)
 		}
@@ -438,6 +451,9 @@ func (e *env) runOne(p planLine, seed int64) (outLine, error) {
 		"wire_enc": cr.encHdr, "framing": framing}
 	if netErr != "" {
 		extra["neterr"] = netErr
+	}
+	if hung > 0 {
+		extra["hung_attempts"] = hung
 	}
 	if rec != nil {
 		o.Ran = true
